@@ -681,7 +681,21 @@ func (d *evmDriver) buildTx(e BEvent, nonceAhead map[string]uint64) builtTx {
 		}
 	}
 	// payload
+	// word for the storage fixture by class: "zero" clears the slot, "same" rewrites the current value, "new" (default)
+	// writes another non-zero value - so that histories set -> clear / set -> same / set -> overwrite / clear -> set arise
+	curWord := app.EvmKeeper.GetState(ctx, d.addr["c"], common.Hash{}).Big()
 	wordV := big.NewInt(int64(1 + d.rng.Intn(1000000)))
+	for wordV.Cmp(curWord) == 0 {
+		wordV = big.NewInt(int64(1 + d.rng.Intn(1000000)))
+	}
+	if to == "c" {
+		switch e.str("wc") {
+		case "zero":
+			wordV = big.NewInt(0)
+		case "same":
+			wordV = new(big.Int).Set(curWord)
+		}
+	}
 	amt := big.NewInt(int64(1 + d.rng.Intn(1000)))
 	var toAddr *common.Address
 	var data []byte
@@ -783,6 +797,29 @@ func (d *evmDriver) buildTx(e BEvent, nonceAhead map[string]uint64) builtTx {
 		gas = d.wc.BigGas + uint64(d.rng.Intn(1000))
 	case "large":
 		gas = d.wc.BigGas*3/4 + uint64(d.rng.Intn(1000))
+	case "fit":
+		// a tight limit: what a successful execution needs (so that the minimum-gas floor does not bind)
+		switch {
+		case to == "c":
+			// intrinsic + 59 gas of cheap opcodes + the SSTORE (spec/Trace_EvmTx.tla t_FIX)
+			gas = intr + 59
+			if ty != "al" {
+				gas += 2100
+			}
+			switch {
+			case wordV.Cmp(curWord) == 0:
+				gas += 100 + 250 // EIP-2200 sentry: more than 2300 gas must be left when SSTORE starts
+			case curWord.Sign() == 0:
+				gas += 20000
+			default:
+				gas += 2900
+			}
+			gas += uint64(d.rng.Intn(3)) * 50
+		case toAddr != nil && data == nil:
+			gas = intr
+		default:
+			gas = d.wc.BigGas / 2
+		}
 	case "huge":
 		if d.wc.MaxGas > 0 {
 			gas = uint64(d.wc.MaxGas) + 1 + uint64(d.rng.Intn(1000))
